@@ -490,3 +490,45 @@ Proof.
       apply Z.gtb_lt in E1. apply Z.gtb_lt in E2. lia.
     + exfalso. apply Hne. left. reflexivity.
 Qed.
+
+(* ------------------------------------------------------------------ *)
+(* a peer that is silent from the very start: the creation instant of the Control is the
+   initial value of lastPing / lastPong, so the same bound holds counted from the login       *)
+(* ------------------------------------------------------------------ *)
+Theorem hb_cli_silent_from_start : forall I T g start execs evs,
+  I > 0 -> T > 0 -> 0 <= g ->
+  Forall (fun e => 0 <= e <= g) execs ->
+  hc_tick_times evs = until_ticks hb_period start execs ->
+  (forall t, ~ In (CPong t) evs) ->
+  (exists t, In t (hc_tick_times evs) /\ start + T * hb_sec < t) ->
+  exists e1 now e2,
+    evs = e1 ++ CTick now :: e2 /\
+    start + T * hb_sec < now <= start + T * hb_sec + hb_period + g /\
+    hc_closed (hb_cli_run I T (hb_cli_init start) (e1 ++ [CTick now])) = true /\
+    hc_closed (hb_cli_run I T (hb_cli_init start) evs) = true.
+Proof.
+  intros I T g start execs evs HI HT Hg Hf Ht Hn Hex.
+  apply (hb_cli_silent_within I T g start start execs (hb_cli_init start) evs); auto.
+  - simpl. lia.
+  - unfold hb_sec. lia.
+  - intros t H. exfalso. exact (Hn t H).
+Qed.
+
+Theorem hb_srv_silent_from_start : forall T g start execs evs,
+  T > 0 -> 0 <= g ->
+  Forall (fun e => 0 <= e <= g) execs ->
+  hb_tick_times evs = until_ticks hb_period start execs ->
+  (forall t, ~ In (HValidPing t) evs) ->
+  (exists t, In t (hb_tick_times evs) /\ start + T * hb_sec < t) ->
+  exists e1 now e2,
+    evs = e1 ++ HTick now :: e2 /\
+    start + T * hb_sec < now <= start + T * hb_sec + hb_period + g /\
+    hs_closed (hb_srv_run T (hb_srv_init start) (e1 ++ [HTick now])) = true /\
+    hs_closed (hb_srv_run T (hb_srv_init start) evs) = true.
+Proof.
+  intros T g start execs evs HT Hg Hf Ht Hn Hex.
+  apply (hb_srv_silent_within T g start start execs (hb_srv_init start) evs); auto.
+  - simpl. lia.
+  - unfold hb_sec. lia.
+  - intros t H. exfalso. exact (Hn t H).
+Qed.
